@@ -485,6 +485,8 @@ def q5(rep):
                             cd = strip(p["c"][0])
                             if cd is not None and cd["k"] == "BinaryOperator" and cd["op"] == "<" and render(strip(cd["c"][1])) == newv:
                                 ok2 = True
+                            if cd is not None and cd["k"] == "BinaryOperator" and cd["op"] == ">" and render(strip(cd["c"][0])) == newv:
+                                ok2 = True
                         ch, p = p, par2.get(p["id"])
                     if not ok2:
                         bad_calls.append("%s:%d" % (name2, c["l"]))
